@@ -83,7 +83,7 @@ def run(prop, tier):
         for fill in fills:
             out = os.path.join(wd, "out_%d" % fill)
             env = {"ASAN_OPTIONS": C.SAN_ENV["ASAN_OPTIONS"].replace("malloc_fill_byte=190", "malloc_fill_byte=%d" % fill)}
-            C.run_driver(exe, "damage", len(specs), out, args=["--list", lst, "--timeout", "60" if q else "240", "--hardmult", "1" if q else "256"], env_extra=env, chunk=400)
+            C.run_driver(exe, "damage", len(specs), out, args=["--list", lst, "--timeout", "90" if q else "240", "--hardmult", "256"], env_extra=env, chunk=400)
             R = C.parse_out(out)
             statuses.update(R.status)
             ub.update(R.ub)
